@@ -18,7 +18,8 @@ cholesky(A: BlockDiag)      = BlockDiag(*[cholesky(Ai) ...], multiplicities=A.mu
 plu(A: LinearOperator) = Permutation(p), Triangular(L, lower), Triangular(U, upper)
                           with p, L, U = scipy.linalg.lu(A.to_dense(), p_indices=True)
 plu(A: Identity)       = A, A, A
-plu(A: Diagonal|ScalarMul) = I_like(A), S, S   with S = sqrt(A)
+plu(A: Diagonal|ScalarMul) = I_like(A), I_like(A), A      (fix 7421396; was (I, √A, √A): NaN for
+                                                            negative entries under a real dtype)
 plu(A: Kronecker)      = Kronecker(*P), Kronecker(*L), Kronecker(*U)   factor-wise
 plu(A: BlockDiag)      = BlockDiag(*P, mults), BlockDiag(*L, mults), BlockDiag(*U, mults)
 ```
@@ -134,16 +135,13 @@ def pluRule (P : DecompParams R) : Op R → Except String (Op R × Op R × Op R)
   | annot a A =>
       match A.core with
       | eye _ _ => .ok (annot a A, annot a A, annot a A)
+      -- `Id, Id, A`: the upper factor is the declared object itself
+      | diag dt n _ => .ok (eye dt n, eye dt n, annot a A)
+      | scalar dt _ n => .ok (eye dt n, eye dt n, annot a A)
       | _ => pluRule P A
   | eye dt n => .ok (eye dt n, eye dt n, eye dt n)
-  | diag dt n d =>
-      match sqrtVec P dt n d with
-      | .ok s => .ok (eye dt n, diag dt n s, diag dt n s)
-      | .error e => .error e
-  | scalar dt c n =>
-      match P.sqrtS dt c with
-      | .ok t => .ok (eye dt n, sqrtScalarOp dt t n, sqrtScalarOp dt t n)
-      | .error e => .error e
+  | diag dt n d => .ok (eye dt n, eye dt n, diag dt n d)
+  | scalar dt c n => .ok (eye dt n, eye dt n, scalar dt c n)
   | kron Ms =>
       match seqE (Ms.map (fun M => pluRule P M)) with
       | .ok Fs => .ok (kron (Fs.map (·.1)), kron (Fs.map (·.2.1)), kron (Fs.map (·.2.2)))
@@ -199,7 +197,7 @@ def skelOf : Op R → Skel
   | perm _ p => .perm p.length
   | _ => .other
 
-/-- the kind tree the structural rules promise for a triangular factor of the input `A`:
+/-- the kind tree the structural rules promise for the Cholesky factor of the input `A`:
 Identity ↦ Identity, Diagonal ↦ Diagonal of the same size, ScalarMul ↦ scalar · Identity,
 Kronecker ↦ Kronecker factor-wise, BlockDiag ↦ BlockDiag block-wise with the SAME
 multiplicities; every other class ↦ one `Triangular` with the flag `lower` -/
@@ -211,6 +209,27 @@ def promisedSkel (lower : Bool) : Op R → Skel
   | kron Ms => .kron (Ms.map (fun M => promisedSkel lower M))
   | bdiag Ms mults => .bdiag (Ms.map (fun M => promisedSkel lower M)) mults
   | A => .tri lower A.rows
+
+/-- the kind tree promised for the lower factor of `plu`: Identity on every structured leaf -/
+def promisedLSkel : Op R → Skel
+  | annot _ A => promisedLSkel A
+  | eye _ n => .eye n
+  | diag _ n _ => .eye n
+  | scalar _ _ n => .eye n
+  | kron Ms => .kron (Ms.map (fun M => promisedLSkel M))
+  | bdiag Ms mults => .bdiag (Ms.map (fun M => promisedLSkel M)) mults
+  | A => .tri true A.rows
+
+/-- the kind tree promised for the upper factor of `plu`: a structured leaf is its own upper
+factor -/
+def promisedUSkel : Op R → Skel
+  | annot _ A => promisedUSkel A
+  | eye _ n => .eye n
+  | diag _ n _ => .diag n
+  | scalar _ _ n => .scalar n
+  | kron Ms => .kron (Ms.map (fun M => promisedUSkel M))
+  | bdiag Ms mults => .bdiag (Ms.map (fun M => promisedUSkel M)) mults
+  | A => .tri false A.rows
 
 /-- the kind tree promised for the permutation factor of `plu` -/
 def promisedPermSkel : Op R → Skel
